@@ -593,6 +593,9 @@ func (fc *FuncCtx) nonNil0(v ssa.Value) *bddNode {
 				if sv := fc.singleStore(al, x); sv != nil {
 					return fc.NonNil(sv)
 				}
+				if sv := lastStoreInBlock(al, x); sv != nil {
+					return fc.NonNil(sv)
+				}
 			}
 		}
 	case *ssa.Call:
@@ -687,8 +690,8 @@ func (fc *FuncCtx) inlineResult(call *ssa.Call, sc *ssa.Function, idx int) (*bdd
 func (fc *FuncCtx) Returns() []*ssa.Return {
 	var out []*ssa.Return
 	for _, b := range fc.Fn.Blocks {
-		if len(b.Instrs) == 0 {
-			continue
+		if len(b.Instrs) == 0 || b == fc.Fn.Recover {
+			continue // the recover block only re-returns the spilled results after a recovered panic
 		}
 		if r, ok := b.Instrs[len(b.Instrs)-1].(*ssa.Return); ok {
 			out = append(out, r)
